@@ -1,3 +1,66 @@
-From Coq Require Import List.
-Require Import AOV.base.Num AOV.model.Centroid.
-Theorem C15_placeholder : True. Proof. exact I. Qed.
+(* C15 -- Centroiders locate, shift, scale and batch consistently.
+   Model: coq/model/Centroid.v (hand-written, as the code is at the pinned commit incl. the two threshold
+   treatments), tied by the correspondence check. *)
+From Coq Require Import Reals List Arith PrimFloat.
+Require Import AOV.base.Num AOV.base.NumR AOV.base.NumF AOV.base.FloatFun AOV.model.Centroid AOV.proofs.C15_proofs.
+Import ListNotations.
+Local Open Scope R_scope.
+
+Theorem C15_single_bright_pixel : forall G K r c py px a, (py < r)%nat -> (px < c)%nat -> a <> 0 ->
+  cog_plain (ROps G K) (spike r c py px a) = (INR px, INR py).
+Proof. exact cog_single_pixel. Qed.
+Print Assumptions C15_single_bright_pixel.
+
+(* unchanged by a positive factor: with or without threshold, frames and stacks, brightest pixel *)
+Theorem C15_scale_invariance : forall G K s thr, 0 < s ->
+  (forall m, nonneg m -> cog2d (ROps G K) thr 0 (map (map (fun v => s * v)) m) = cog2d (ROps G K) thr 0 m) /\
+  (forall frames, Forall nonneg frames ->
+     cogNd (ROps G K) thr 0 (map (map (map (fun v => s * v))) frames) = cogNd (ROps G K) thr 0 frames) /\
+  (forall m, brightest_pixel2d (ROps G K) thr (map (map (fun v => s * v)) m) = brightest_pixel2d (ROps G K) thr m).
+Proof. intros G K s thr Hs. repeat apply conj; intros; [apply cog2d_scale|apply cogNd_scale|apply brightest_pixel_scale]; assumption. Qed.
+Print Assumptions C15_scale_invariance.
+
+(* content moved by (kx, ky) pixels inside a zero frame moves the centroid by exactly (kx, ky) *)
+Theorem C15_shift_equivariance : forall G K ky kx c (m : list (list R)), tsum (ROps G K) m <> 0 ->
+  cog_plain (ROps G K) (pad_tl ky kx c m)
+  = (fst (cog_plain (ROps G K) m) + INR kx, snd (cog_plain (ROps G K) m) + INR ky).
+Proof. exact cog_shift. Qed.
+Print Assumptions C15_shift_equivariance.
+
+(* a stack gives the per-frame answers: brightest pixel always; centre of gravity per frame of the stack
+   path always, and equal to the single-frame path when no threshold is used *)
+Theorem C15_stack_equals_frames : forall G K thr mt (frames : list (list (list R))),
+  brightest_pixel3d (ROps G K) thr frames = map (brightest_pixel2d (ROps G K) thr) frames /\
+  cogNd (ROps G K) thr mt frames = map (fun f => hd (0, 0) (cogNd (ROps G K) thr mt [f])) frames /\
+  cogNd (ROps G K) 0 mt frames = map (cog2d (ROps G K) 0 mt) frames.
+Proof. intros G K thr mt frames. repeat apply conj;
+  [apply (@brightest_pixel3d_per_frame R)|apply (@cogNd_per_frame R)|apply cogNd_cog2d_thr0]. Qed.
+Print Assumptions C15_stack_equals_frames.
+
+(* WITH a threshold the single-frame and the stack paths disagree (binary64 witness; known finding) *)
+Theorem C15_threshold_frame_vs_stack_refuted :
+  (fclose 0x1.0624dd2f1a9fcp-10 1
+    (fst (cog2d C15F.OF 0x1.3333333333333p-2 0 C15F.f5))
+    (fst (hd (0, 0) (cogNd C15F.OF 0x1.3333333333333p-2 0 [C15F.f5]))))%float = false.
+Proof. exact C15F.cog_frame_stack_disagree. Qed.
+
+Theorem C15_quad_cell_mirror : forall G K a b c d, let m := [[a; b]; [c; d]] in
+  fst (quadcell (ROps G K) (map (@rev R) m)) = - fst (quadcell (ROps G K) m) /\
+  snd (quadcell (ROps G K) (map (@rev R) m)) = snd (quadcell (ROps G K) m) /\
+  snd (quadcell (ROps G K) (rev m)) = - snd (quadcell (ROps G K) m) /\
+  fst (quadcell (ROps G K) (rev m)) = fst (quadcell (ROps G K) m).
+Proof. exact quadcell_mirror. Qed.
+Print Assumptions C15_quad_cell_mirror.
+
+(* correlation centroid of a centred 9x9 spot against itself: 4 for paddings 1 and 3, but 4.5 for
+   padding 2 (binary64 witnesses; known finding for odd size with even padding) *)
+Theorem C15_correlation_padding_witnesses :
+  (C15F.both_close (correlation_centroid1 C15F.OF C15F.spot9 C15F.spot9 0x1.3333333333333p-2 1) 4 = true /\
+  C15F.both_close (correlation_centroid1 C15F.OF C15F.spot9 C15F.spot9 0x1.3333333333333p-2 3) 4 = true /\
+  C15F.both_close (correlation_centroid1 C15F.OF C15F.spot9 C15F.spot9 0x1.3333333333333p-2 2) 0x1.2p+2 = true)%float.
+Proof. repeat apply conj; [exact C15F.corr_centroid_pad1|exact C15F.corr_centroid_pad3|].
+  pose proof C15F.corr_centroid_pad2_half_pixel as H. cbv zeta in H.
+  apply Bool.andb_true_iff in H. destruct H as [H _]. apply Bool.andb_true_iff in H. destruct H as [H _]. exact H. Qed.
+
+Example C15_nonvacuous : (1 < 3)%nat /\ (2 < 4)%nat /\ 5 <> 0.
+Proof. repeat split; try repeat constructor. Lra.lra. Qed.
